@@ -170,3 +170,53 @@ func selftest(c *Config, only string) int {
 	fmt.Printf("selftest: %d/%d as expected\n", okN, total)
 	return exit
 }
+
+// sensitivity runs the overlay mutants of one property and returns how many behave as
+// expected; used by the thorough tier as a measured sensitivity figure (never part of the verdict).
+func sensitivity(c *Config, id string) map[string]any {
+	var ms []mutant
+	for _, m := range mutants {
+		if m.Prop == id {
+			ms = append(ms, m)
+		}
+	}
+	if len(ms) == 0 {
+		return map[string]any{"mutants_total": 0}
+	}
+	bc := &Config{Repo: c.Repo, Verif: c.Verif, Tier: "quick", Quiet: true}
+	base := failingKeys(runProp(bc, id))
+	res := make([]selfResult, len(ms))
+	var wg sync.WaitGroup
+	sem := make(chan struct{}, 6)
+	for i := range ms {
+		wg.Add(1)
+		go func(i int) {
+			defer wg.Done()
+			sem <- struct{}{}
+			defer func() { <-sem }()
+			res[i] = runMutant(c, ms[i], base)
+		}(i)
+	}
+	wg.Wait()
+	killed, benignOK, total, benign := 0, 0, 0, 0
+	var unexpected []string
+	for _, x := range res {
+		if x.m.Benign {
+			benign++
+			if x.ok {
+				benignOK++
+			} else {
+				unexpected = append(unexpected, x.m.Name+": "+x.detail)
+			}
+			continue
+		}
+		total++
+		if x.ok {
+			killed++
+		} else {
+			unexpected = append(unexpected, x.m.Name+": "+x.detail)
+		}
+	}
+	return map[string]any{"mutants_total": total, "mutants_killed": killed, "benign_refactorings_total": benign, "benign_refactorings_silent": benignOK, "unexpected": unexpected,
+		"note": "in-memory overlay mutants of this property's rules (checker/mutants_a.go); a measured sensitivity figure, not part of the verdict"}
+}
